@@ -21,14 +21,20 @@ Hypotheses of the theorems:
   only with them; every formula built by pySMT's constructors is `wf`.
 * `inFrag t` — every operator of `t` has an entry in `Simplifier.ruleOf` and meets the entry's
   guard. **This is why the four main theorems are `_partial`**: at present the table holds
-  the Boolean/core family (and, or, not, iff, implies, ite, equals on non-array sorts, le, lt,
+  the Boolean/core family (and, or, not, iff, implies, ite, equals, le, lt,
   forall, exists, function, toreal, symbols, constants) and the arithmetic family (plus,
   times, minus, div) and the bit-vector family (all 27 `walk_bv_*` rules, every width; `zext` /
   `sext` on the nodes whose width payload is operand width + step, as the constructors build
-  them: `BVRules.extGuard`). Missing: the string and array operators and `Equals` between
-  array-sorted terms (string-array families in preparation: adding them changes
-  `ruleOf` and `ruleOf_ok` only), and `pow` / algebraic constants, which have no semantics
-  (known finding F05). The statements themselves need no change when the table grows.
+  them: `BVRules.extGuard`), the string family (all 11 `walk_str_*` / `walk_int_to_str` rules) and
+  the array family (`walk_array_select`, `walk_array_store`, `walk_array_value` on arrays whose index
+  sort is not itself an array sort: `ArrayRules.arrayGuard`, `valueGuard`). Missing: `Equals` between
+  array-sorted terms whose index sort is a bit-vector sort wider than 8 bits (with non-array elements;
+  `Simplifier.equalsGuard`: the comparison of two constant array values is proved over Int, Real, String,
+  Bool and BV≤8 indices — beyond that the canonical array values of the reference semantics are not
+  extensional when all `2^w` indices are assigned), arrays indexed by arrays, and `pow` / algebraic constants, which have no
+  semantics (known finding F05). The array rules of the model test the invariant of `ARRAY_VALUE` nodes
+  (keys are pairwise distinct constants, guaranteed by `FormulaManager.Array` but not part of `Term.wf`;
+  see Impl/Simp/Array.lean). The statements themselves need no change when the table grows.
 -/
 namespace PySMT.C01
 open PySMT PySMT.Simp PySMT.Simplifier
@@ -174,6 +180,46 @@ example : t2.wf = true ∧ inFrag t2 = true ∧ t2.typeOf = some .bool := by
     intro a ha; simp at ha
     rcases ha with rfl | rfl <;> assumption
 
+/-- `Select(Array(Int, 0, {1: 5}), 1)` : an array value (scalar index sort: the guards of the array
+entries hold) on which `walk_array_select` looks the index up -/
+private def av : Term := .node .arrayValue [Term.int 0, Term.int 1, Term.int 5] (.ty .int)
+private def t3 : Term := .node .arraySelect [av, Term.int 1] .none
+/-- `str.len("ab" ++ s)` : string operators over a symbol -/
+private def t4 : Term := .node .strLength [.node .strConcat [Term.str "ab", Term.var "s" .str] .none] .none
+
+example : t3.wf = true ∧ inFrag t3 = true ∧ t3.typeOf = some .int := by
+  have tav : av.typeOf = some (.array .int .int) := by
+    rw [av, typeOf_node]; simp only [List.map_cons, List.map_nil, typeOf_int]; rfl
+  have wav : av.wf = true :=
+    wf_mk' (by intro a ha; simp at ha; rcases ha with rfl | rfl | rfl <;> exact wf_int _) rfl tav
+  have fint : ∀ n, inFrag (Term.int n) = true := fun n => frag_node (e := keep .intConst) rfl rfl (by simp)
+  have fav : inFrag av = true :=
+    frag_node (e := { rule := ArrayRules.walkArrayValue, guard := ArrayRules.valueGuard }) rfl rfl
+      (by intro a ha; simp at ha; rcases ha with rfl | rfl | rfl <;> exact fint _)
+  have t3ty : t3.typeOf = some .int := by
+    rw [t3, typeOf_node]; simp only [List.map_cons, List.map_nil, typeOf_int, tav]; rfl
+  refine ⟨wf_mk' (by intro a ha; simp at ha; rcases ha with rfl | rfl; exact wav; exact wf_int _) rfl t3ty, ?_, t3ty⟩
+  refine frag_node (e := { rule := ArrayRules.walkArraySelect, guard := ArrayRules.arrayGuard }) rfl ?_ ?_
+  · simp only [List.map_cons, List.map_nil, tav]; rfl
+  · intro a ha; simp at ha; rcases ha with rfl | rfl; exact fav; exact fint _
+
+example : t4.wf = true ∧ inFrag t4 = true ∧ t4.typeOf = some .int := by
+  obtain ⟨ws, ts, fs⟩ : (Term.var "s" .str).wf = true ∧ (Term.var "s" .str).typeOf = some .str ∧
+      inFrag (Term.var "s" .str) = true := var_ok "s" .str
+  have tc : (Term.node .strConcat [Term.str "ab", Term.var "s" .str] .none).typeOf = some .str := by
+    rw [typeOf_node]; simp only [List.map_cons, List.map_nil, StrRules.typeOf_strc, ts]; rfl
+  have wc : (Term.node .strConcat [Term.str "ab", Term.var "s" .str] .none).wf = true :=
+    wf_mk' (by intro a ha; simp at ha; rcases ha with rfl | rfl; exact StrRules.wf_strc _; exact ws) rfl tc
+  have t4ty : t4.typeOf = some .int := by
+    rw [t4, typeOf_node]; simp only [List.map_cons, List.map_nil, tc]; rfl
+  refine ⟨wf_mk' (by intro a ha; simp at ha; subst ha; exact wc) rfl t4ty, ?_, t4ty⟩
+  refine frag_node (e := StrRules.walkStrLength) rfl rfl ?_
+  intro a ha; simp at ha; subst ha
+  refine frag_node (e := StrRules.walkStrConcat) rfl rfl ?_
+  intro a ha; simp at ha
+  rcases ha with rfl | rfl
+  · exact frag_node (e := keep .strConst) rfl rfl (by simp)
+  · exact fs
 /-- a well-formed interpretation exists (so the quantifier over interpretations is not empty) -/
 example : ∃ I : Interp, I.WF :=
   ⟨{ sym := fun s => s.ret.defaultVal, fn := fun f _ => f.ret.defaultVal, dom := fun t => [t.defaultVal],
